@@ -17,6 +17,9 @@ CHECKS = {
  'C12': dict(engine='E1-enum', technique='bounded-exhaustive enumeration of validator expression terms x base hints x placements x objects against a boolean reference evaluator',
    text='All validator expressions over 16 leaves (Is, IsEqual, IsInstance, IsSubclass, IsAttr nested to depth 2 incl. same-name nesting) closed under ~ & | completely to depth 1 and over representatives to depth 2 (3 thorough), under base hints {object,int,K} at 6 placements (root and five positions where the pith is an expression) on 31 objects: boolean meaning == V.is_valid == is_bearable == die_if_unbearable, and the validator blamed in the message plus every leaf verdict of its diagnosis tree agree with the model.',
    note='Trusted: valemodel.vsat (20 lines).', ref='5/C12'),
+ 'C18': dict(engine='E1-enum', technique='bounded-exhaustive metamorphic execution: hint under a rewriting configuration vs hand-rewritten hint under the default configuration, over hint terms x objects x draw residues x both configuration orders',
+   text='For every enumerated hint over float/complex/overridden classes (all container families, unions, Annotated with validators and plain metadata, NewType/TypeVar over float, type[], tuples, generics; nesting <= 2, 3 thorough) and 9 rewriting configurations, the observations (is_bearable, die_if_unbearable incl. culprits, decorated param+return, decoration failures) must equal those of the term-level hand-rewritten hint under the default configuration for every object and draw residue; configuration lists are walked in both orders in separate processes; verdicts must be invariant under 5 violation_* settings.',
+   note='Differential oracle (no expected values); hand-rewriting is done on hint terms, NewType/TypeVar over float are rewritten to the union itself.', ref='5/C18'),
 }
 NOT_YET = {}
 for i in range(1, 21):
